@@ -366,7 +366,7 @@ func genAction(t *rapid.T) Action {
 }
 
 func TestPipelines(t *testing.T) {
-	harness.Rapid(t, harness.N(4000, 16*8000), func(t *rapid.T) {
+	harness.Rapid(t, harness.N(4000, 16*48000), func(t *rapid.T) {
 		var c Case
 		c.ViewBox = [4]ops.F32{-32, -32, 32, 32}
 		if rapid.Bool().Draw(t, "vb") {
